@@ -170,6 +170,16 @@ def seq_specs(full):
     return out
 
 
+def seq_on_nonseq():
+    """Sequence specs written for a field whose value is NOT a sequence (a single child or None): never a match.  String-valued
+    fields are left out: the library treats a str as a sequence of characters and the statement does not say otherwise."""
+    out = []
+    for f in ("o",):
+        out += [(f, seq([], ("tail", None)), None), (f, seq([], ("tail", None)), "whole"), (f, seq([], ("tail", "rest")), None), (f, seq([]), None),
+                (f, seq([(T("*"), None)], ("tail", None)), None), (f, seq([(T("*"), "x")]), None)]
+    return out
+
+
 def var_pairs():
     """Two-field specs where the second refers to a capture of the first."""
     return [
@@ -186,12 +196,12 @@ def var_pairs():
 
 def patterns(tier):
     full = True
-    singles = prop_specs("s") + prop_specs("n") + child_specs(3 if full else 2) + seq_specs(full) + [("nosuch", None, None), ("nosuch", None, "v")]
+    singles = prop_specs("s") + prop_specs("n") + child_specs(3 if full else 2) + seq_specs(full) + seq_on_nonseq() + [("nosuch", None, None), ("nosuch", None, "v")]
     for cls in CLASSES:
         yield T(cls)
         for fs in singles:
             yield T(cls, fs)
-    red = prop_specs("s")[:6] + prop_specs("n")[:2] + [prop_specs("n")[8]] + child_specs(1)[:6] + [s for s in seq_specs(False) if _small(s)]
+    red = prop_specs("s")[:6] + prop_specs("n")[:2] + [prop_specs("n")[8]] + child_specs(1)[:6] + [s for s in seq_specs(False) if _small(s)] + seq_on_nonseq()[:3]
     for cls in (CLASSES if full else CLASSES[:3]):
         for f1, f2 in itertools.product(red, repeat=2):
             if f1[0] == f2[0] and cls not in ("*", ("PA",), ("PB", "PA")):
